@@ -153,6 +153,9 @@ def run_check(prop: str, tier: str, seed: int) -> int:
         inconclusive.extend(extra)
     if evaluations == 0:
         inconclusive.append("no case was evaluated")
+    voided = cov.get("cases_voided_by_thread_death", 0)
+    if voided and voided > max(3, evaluations // 50):
+        inconclusive.append(f"{voided} cases were voided because a node thread died in them (see C14)")
 
     kf = findings.load()
     known_seen: dict[str, int] = {}
